@@ -382,6 +382,9 @@ pub enum EvOp {
     /// The connection is lost; the client's transport reports `Connecting` for one frame before
     /// it reports `Disconnected`.
     DisconnectSlowly(u8),
+    /// Like `ConnectSlowly` with a single frame in `Connecting`, during which the game emits a
+    /// client event: no session is up, so it must never reach the server.
+    ConnectSlowlyEmitting(u8),
     /// The backend re-inserts `ConnectedClient` on a live connection (e.g. to change `max_size`).
     TouchConnection(u8),
     Disconnect(u8),
@@ -449,6 +452,7 @@ impl EvOp {
             ),
             EvOp::Connect(c) => format!("connect c{c}"),
             EvOp::ConnectSlowly(c) => format!("connect c{c} after four frames in Connecting"),
+            EvOp::ConnectSlowlyEmitting(c) => format!("connect c{c} after one frame in Connecting in which it emits C1"),
             EvOp::TouchConnection(c) => format!("re-insert ConnectedClient on c{c}'s connection"),
             EvOp::DisconnectSlowly(c) => format!("disconnect c{c}, its transport retries for a frame first"),
             EvOp::Disconnect(c) => format!("disconnect c{c}"),
@@ -646,7 +650,7 @@ impl EvCell {
                         })
                     })
             }
-            EvOp::Connect(c) | EvOp::ConnectSlowly(c) => !Self::connected(x, c as usize) && x.sim.server_running(),
+            EvOp::Connect(c) | EvOp::ConnectSlowly(c) | EvOp::ConnectSlowlyEmitting(c) => !Self::connected(x, c as usize) && x.sim.server_running(),
             EvOp::TouchConnection(c) | EvOp::DisconnectSlowly(c) => Self::connected(x, c as usize),
             EvOp::StopServer => x.sim.server_running(),
             EvOp::StartServer => !x.sim.server_running(),
@@ -693,6 +697,12 @@ impl EvCell {
             EvOp::World(op) => x.sim.apply_op(op),
             EvOp::Connect(c) => x.sim.connect(c as usize),
             EvOp::ConnectSlowly(c) => x.sim.connect_slowly(c as usize, 4),
+            EvOp::ConnectSlowlyEmitting(c) => {
+                let c = c as usize;
+                x.sim.clients[c].app.world_mut().resource_mut::<RepliconClient>().set_status(RepliconClientStatus::Connecting);
+                x.sim.clients[c].app.world_mut().send_event(C1(seq(CK::C1.tag(), 0)));
+                x.sim.connect_slowly(c, 1);
+            }
             EvOp::DisconnectSlowly(c) => {
                 if let Some(conn) = x.sim.clients[c as usize].conn {
                     x.closed_conns.insert(conn.to_bits());
